@@ -13,6 +13,7 @@ import (
 	"encoding/hex"
 	"net"
 	"reflect"
+	"runtime"
 	"sync"
 	"time"
 
@@ -199,7 +200,12 @@ func vh01ConnScenario(o *vhOut, version int) {
 			vh01EmitFrame(o, f, "R", step, version, wantR)
 		}
 	}
+	// The real client puts a finalizer (Close -> Tclunk) on every clientFile: each one obtained below stays
+	// referenced until the capture is over, so that the GC cannot clunk it in the middle of a recording window.
+	var keep []interface{}
+	defer func() { runtime.KeepAlive(keep) }()
 	c, err := NewClient(&vhclVerConn{Conn: tap, v: version}, WithMessageSize(1<<16))
+	keep = append(keep, c)
 	if err != nil {
 		o.Emit(map[string]interface{}{"k": "conn-error", "what": "NewClient: " + err.Error()})
 		return
@@ -211,6 +217,7 @@ func vh01ConnScenario(o *vhOut, version int) {
 		o.Emit(map[string]interface{}{"k": "conn-error", "what": "Attach: " + err.Error()})
 		return
 	}
+	keep = append(keep, root)
 	flush("attach", []message{&tattach{Auth: tauth{Authenticationfid: noFID, AttachName: "at/tach", UserName: "", UID: NoUID}}}, []message{&rattach{QID: vh01cQID}})
 
 	names := []string{"a", "b\xffb", "f"}
@@ -221,6 +228,7 @@ func vh01ConnScenario(o *vhOut, version int) {
 		[]message{&rwalkgetattr{Valid: vh01cValid, Attr: vh01cAttr, QIDs: []QID{vh01cQID}}, &rwalk{QIDs: []QID{vh01cQID}}, &rgetattr{Valid: vh01cValid, QID: vh01cQID, Attr: vh01cAttr}})
 	_, clone, _ := root.Walk(nil)
 	flush("clone", []message{&twalk{}}, []message{&rwalk{}})
+	keep = append(keep, file, dir, clone)
 	if file == nil || dir == nil || clone == nil {
 		o.Emit(map[string]interface{}{"k": "conn-error", "what": "walks failed"})
 		return
@@ -276,7 +284,7 @@ func vh01ConnScenario(o *vhOut, version int) {
 	flush("create", []message{&tlcreate{Name: "created", OpenFlags: ReadWrite | 0x8000, Permissions: perm, GID: NoGID},
 		&tucreate{tlcreate: tlcreate{Name: "created", OpenFlags: ReadWrite | 0x8000, Permissions: perm, GID: 802}, UID: 801}},
 		[]message{&rlcreate{rlopen{QID: vh01cFQID, IoUnit: 4096}}, &rucreate{rlcreate{rlopen{QID: vh01cFQID, IoUnit: 4096}}}})
-	_ = cf
+	keep = append(keep, cf)
 	root.SetXattr("user.x", []byte("value"), XattrCreate)
 	flush("setxattr", []message{&txattrcreate{Name: "user.x", AttrSize: 5, Flags: uint32(XattrCreate)}}, nil)
 	root.GetXattr("user.x")
